@@ -50,8 +50,9 @@ class LabelSpace(Subspace):
     shard = 20
 
     def __init__(self, name, G, lo, hi, kinds=("int",), naming="unnamed", seed=0, opnames=OPS,
-                 containers=None):
+                 containers=None, threshold=None):
         self.name = name
+        self.threshold = threshold
         self.kinds, self.naming, self.seed, self.opnames = tuple(kinds), naming, seed, opnames
         self.containers = containers
         nk = len(kinds)
@@ -65,7 +66,8 @@ class LabelSpace(Subspace):
 
     def case(self, i):
         return dict(w=[list(kt) for kt in self.ws.at(i)], kinds=list(self.kinds), naming=self.naming,
-                    seed=self.seed, ops=list(self.opnames), containers=self.containers)
+                    seed=self.seed, ops=list(self.opnames), containers=self.containers,
+                    threshold=self.threshold)
 
     def run(self, case):
         import polars as pl
@@ -115,7 +117,7 @@ class LabelSpace(Subspace):
         }
         use = case.get("containers") or list(containers)
         seams = env.seams()
-        seams.set(executor=sched.NAMESPACE)
+        seams.set(executor=sched.NAMESPACE, threshold=case.get("threshold"))
         sched.set_schedule(sched.Schedule())
         catkey = nk == 1 and kinds[0].split("_")[0] == "cat"
         for mref in masks:
@@ -218,6 +220,17 @@ def subspaces(tier, seed):
         G = 2 if kk == "bool" else 3
         sp.append(S(f"{kk}-named-n1to3", G, 1, 3, kinds=(kk,), naming="named", seed=seed,
                     containers=few))
+    # chunk-wise factorisation (per-chunk dictionaries, sorted-prefix fast path) must list the
+    # labels in the same order
+    hc = 4 if q else 5
+    sp.append(S(f"int-chunkwise-n1to{hc}", 3, 1, hc, threshold=1, seed=seed,
+                containers=["ndarray", "list2"], opnames=("sum", "count", "first")))
+    sp.append(S(f"float-chunkwise-named-n1to{hc}", 3, 1, hc, kinds=("float",), naming="named", threshold=1,
+                seed=seed, containers=["series_named"], opnames=("sum", "size")))
+    sp.append(S(f"int-G4-chunkwise-n4to{hc}", 4, 4, hc, threshold=1, seed=seed,
+                containers=["ndarray"], opnames=("sum",)))
+    sp.append(S("str-chunkwise-n1to3", 3, 1, 3, kinds=("str_obj",), threshold=1, seed=seed,
+                containers=["ndarray"], opnames=("sum", "min")))
     sp.append(S("two-keys-mixed-n1to3", 2, 1, 3, kinds=("int", "str_obj"), naming="mixed", seed=seed,
                 containers=few))
     sp.append(S("two-keys-float+cat-named-n1to3", 2, 1, 3 if not q else 2, kinds=("float", "cat"),
